@@ -846,7 +846,7 @@ Definition parse_fields (fields : list string) : res (option instr) :=
         let l := join " " fields in
         match first_rule l parser_rules with
         | Some (key, cls, sh) =>
-            do ps <- parse_shape sh (strip (drop (String.length key) l));
+            do ps <- parse_imm cls sh (strip (drop (String.length key) l));
             Ok (Some (of_generic cls (fix_params cls ps)))
         | None => Ok (Some (IOther "UnsupportedInstruction" [PStr l]))
         end
@@ -894,7 +894,7 @@ Lemma parse_fields_rule : forall f0 rest key cls sh,
   head_generic f0 = true ->
   first_rule (join " " (f0 :: rest)) parser_rules = Some (key, cls, sh) ->
   parse_fields (f0 :: rest) =
-  do ps <- parse_shape sh (strip (drop (String.length key) (join " " (f0 :: rest))));
+  do ps <- parse_imm cls sh (strip (drop (String.length key) (join " " (f0 :: rest))));
   Ok (Some (of_generic cls (fix_params cls ps))).
 Proof.
   intros f0 rest key cls sh Hh Hr. unfold head_generic in Hh.
@@ -921,14 +921,25 @@ Proof.
     rewrite !sapp_assoc. reflexivity.
 Qed.
 
-(* generic round-trip engine: a line made of key words followed by argument words *)
+(* parse_imm is parse_shape outside the signed classes (frame_dig / frame_bury) and outside the shape SInt *)
+Lemma parse_imm_unsigned : forall cls sh x, signed_imm_class cls = false -> parse_imm cls sh x = parse_shape sh x.
+Proof. intros cls sh x H. destruct sh; cbn [parse_imm]; try reflexivity. rewrite H. reflexivity. Qed.
+Lemma parse_imm_not_int : forall cls sh x, sh <> SInt -> parse_imm cls sh x = parse_shape sh x.
+Proof. intros cls sh x H. destruct sh; cbn [parse_imm]; try reflexivity. congruence. Qed.
+Lemma parse_imm_signed : forall cls x, signed_imm_class cls = true ->
+  parse_imm cls SInt x = do z <- parse_sint x; Ok [PSInt z].
+Proof. intros cls x H. cbn [parse_imm]. rewrite H. reflexivity. Qed.
+
+(* generic round-trip engine: a line made of key words followed by argument words.  (Statement adjusted when signed
+   immediates were added: the immediates are read by parse_imm cls sh, which is parse_shape sh except for SInt of a
+   signed class.) *)
 Theorem parse_line_rule_words : forall kws key cls sh args,
   kws <> [] -> forallb word_ok kws = true -> key = join " " kws ++ " " ->
   head_generic (hd "" kws) = true ->
   blockers key parser_rules = Some [] -> first_rule key parser_rules = Some (key, cls, sh) ->
   args <> [] -> forallb word_ok args = true ->
   parse_line (key ++ join " " args) =
-  do ps <- parse_shape sh (join " " args); Ok (Some (of_generic cls (fix_params cls ps))).
+  do ps <- parse_imm cls sh (join " " args); Ok (Some (of_generic cls (fix_params cls ps))).
 Proof.
   intros kws key cls sh args Hk Hkw Hkey Hh Hb Hf Ha Haw.
   assert (E : key ++ join " " args = join " " (kws ++ args)%list).
@@ -962,7 +973,7 @@ Definition field_eq_dec : forall a b : field, {a = b} + {a <> b}.
 Proof. decide equality; [decide equality; apply Z.eq_dec|apply string_dec]. Defined.
 Definition param_eq_dec : forall a b : param, {a = b} + {a <> b}.
 Proof.
-  decide equality; auto using N.eq_dec, intarg_eq_dec, string_dec, field_eq_dec, (list_eq_dec N.eq_dec), (list_eq_dec string_dec).
+  decide equality; auto using N.eq_dec, Z.eq_dec, intarg_eq_dec, string_dec, field_eq_dec, (list_eq_dec N.eq_dec), (list_eq_dec string_dec).
 Defined.
 (* instr is compared through an injective encoding (constructor tag, parameters): a direct decide-equality
    on the 37 constructors would produce a quadratic term *)
@@ -1190,7 +1201,7 @@ Proof. intros w H. simpl. rewrite H. reflexivity. Qed.
 Ltac use_engine kws key cls sh w :=
   change (key ++ w) with (key ++ join " " [w]);
   rewrite (parse_line_rule_words kws key cls sh [w]);
-  [ | discriminate | vmr | vmr | vmr | vmr | vmr | discriminate | apply word_ok_single ].
+  [ try (rewrite (parse_imm_unsigned cls sh) by vmr) | discriminate | vmr | vmr | vmr | vmr | vmr | discriminate | apply word_ok_single ].
 
 Lemma parse_int_or_name_num : forall n, parse_int_or_name (string_of_N n) = Ok (IANum n).
 Proof. intros n. unfold parse_int_or_name. rewrite is_int_string_of_N, parse_int_decimal. reflexivity. Qed.
@@ -1278,7 +1289,7 @@ Proof.
   rewrite str_gtxn. change ("gtxn " ++ string_of_N n ++ " " ++ f) with ("gtxn " ++ join " " [string_of_N n; f]).
   rewrite (parse_line_rule_words ["gtxn"] "gtxn " "Gtxn" SGtxn [string_of_N n; f]);
     [ | discriminate | vmr | vmr | vmr | vmr | vmr | discriminate | ].
-  - change (join " " [string_of_N n; f]) with (string_of_N n ++ " " ++ f). cbn [parse_shape].
+  - change (join " " [string_of_N n; f]) with (string_of_N n ++ " " ++ f). cbn [parse_imm parse_shape].
     pose proof (word_ok_string_of_N n) as Hn. apply word_ok_elim in Hn. destruct Hn as [_ [Hn _]].
     apply word_ok_elim in Hw. destruct Hw as [_ [Hf _]].
     rewrite split_space_word_sp by exact Hn. rewrite split_space_word by exact Hf.
